@@ -441,7 +441,10 @@ impl Registry {
                     }
                 }
 
-                if let Some(description) = description {
+                // a type extension cannot carry a description
+                if let Some(description) = description
+                    && !(options.federation && *extends)
+                {
                     write_description(sdl, options, 0, description);
                 }
 
@@ -503,7 +506,10 @@ impl Registry {
                 requires_scopes,
                 ..
             } => {
-                if let Some(description) = description {
+                // a type extension cannot carry a description
+                if let Some(description) = description
+                    && !(options.federation && *extends)
+                {
                     write_description(sdl, options, 0, description);
                 }
 
